@@ -33,7 +33,7 @@ def run(rep, tier):
     pairs = [(d, s) for d in range(11) for s in range(11)]
     for v, desc in sorted(XADD.items()):
         w = desc["size"] * 8
-        paths = [p for p in im.summary(v) if not (p["exit"] and p["exit"][0] == "panic")]
+        paths = [p for p in im.summary(v, sequential=False) if not (p["exit"] and p["exit"][0] == "panic")]
         addr = T.op("add", 64, ("sel", imodel.REG, T.zext(64, ("v", "dst", 8)), 64), T.sext(64, ("v", "off", 16)))
         val = ("sel", imodel.REG, T.zext(64, ("v", "src", 8)), 64)
         val = val if w == 64 else T.trunc(32, val)
